@@ -54,7 +54,9 @@ fn print_usage(program_name: &str, opts: Options) {
 const VERSION: &'static str = env!("CARGO_PKG_VERSION");
 
 fn main_real() -> Result<bool, Error> {
-    let args: Vec<String> = env::args().collect();
+    // env::args() panics on an argument that is not valid UTF-8; such an argument cannot be an option
+    // or a file we can name, so keep a lossy copy and let it be reported like any other bad argument
+    let args: Vec<String> = env::args_os().map(|arg| arg.to_string_lossy().into_owned()).collect();
     let program_name = args[0].clone();
     let mut opts = Options::new();
     let mut run_options = RunOptions::default();
